@@ -580,7 +580,7 @@ func TestPoolCrossProduct(t *testing.T) {
 }
 
 func TestCurrency(t *testing.T) {
-	ev.Rapid(t, 60000, 1500000)
+	ev.Rapid(t, 150000, 1500000)
 	rapid.Check(t, func(rt *rapid.T) {
 		g := &gctx{}
 		a, b := genPair(rt, g)
